@@ -60,6 +60,21 @@ def gather(chk):
                        ("vval", "{ switch (a.ival) { case 0: return a.vval; default: break } }"), ("vval", "console.log(a.text)"), ("ival", "a.poke()")):
         qml = P.HEAD + "  TSource { id: t0\n    %s: %s\n  }\n}\n" % (prop, text)
         items.append(("c%d" % n, "binding", qml, {"prop": prop, "text": text})); n += 1
+    # the same sub-expression at several places none of which lies on every path to the others (ternary ladder, switch returns, early returns,
+    # both arms of an if): each occurrence has its own temporaries
+    REPEAT = [("text", 'qsTr("X")'), ("text", 'a.text + "x"'), ("text", "a.label()"), ("text", '"lit"'), ("ival", "a.ival + 1"), ("ival", "a.twice(2)"), ("ival", "Math.max(a.ival, 1)"),
+              ("ival", "-a.ival"), ("ival", "(a.uval as int)"), ("flag", "!a.flag"), ("flag", "a.text.isEmpty()"), ("ptr", "a.ptr"), ("items", '[a.text, "k"]'), ("text", "a.items[0]")]
+    for prop, e in REPEAT:
+        shapes = ["a.flag ? %s : a.flagB ? %s : %s" % (e, e, e),
+                  "{ switch (a.ival) { case 0: return %s; case 1: return %s; default: return %s } }" % (e, e, e),
+                  "{ if (a.flag) { return %s } if (a.flagB) { return %s } return %s }" % (e, e, e),
+                  "{ let r = %s; if (a.flag) { r = %s } else if (a.flagB) { r = %s } return r }" % (e, e, e),
+                  "{ switch (a.ival) { case 0: if (a.flag) { return %s } break; case 1: return %s } return %s }" % (e, e, e)]
+        for sh in shapes:
+            qml = P.HEAD + "  TSource { id: t0\n    %s: %s\n  }\n}\n" % (prop, sh)
+            items.append(("c%d" % n, "binding", qml, {"prop": prop, "text": sh})); n += 1
+        qml = P.HEAD + "  TSource { id: t0\n    onPlain: { if (a.flag) { a.%s = %s } else { a.%s = %s } a.%s = %s }\n  }\n}\n" % (prop, e, prop, e, prop, e)
+        items.append(("c%d" % n, "handler", qml, {"prop": prop, "text": e})); n += 1
     return items
 
 
